@@ -464,3 +464,28 @@ CHECKS['C02'] = ConcCheck('C02', is_c02, CONC_TEXT)
 CHECKS['C03'] = ConcCheck('C03', is_c03, CONC_TEXT)
 CHECKS['C07'] = ConcCheck('C07', is_c07, CONC_TEXT)
 CHECKS['C10'] = ConcCheck('C10', is_c10, CONC_TEXT)
+
+
+# ------------------------------------------------------------------------------------------- C17 (vmem)
+class VmemCheck(SeqCheck):
+    def suites(self, ctx):
+        if ctx.tier == 'quick': return [('vrand', ['vrand', ctx.seed, 16, 20, 50])]
+        return [('vrand', ['vrand', ctx.seed, 800, 30, 150])]
+    def prepare(self, ctx):
+        rc, out = common.sh(['python3', os.path.join(common.ROOT, 'tools', 'extract_facts.py')])
+        ctx.notes['extract_facts'] = out.strip().split('\n')
+        bindir, log = ctx.build_harness(('seqrun',), features='vmem')
+        if bindir is None:
+            ctx.violation('the harness does not build against the current /repo tree with --features vmem (tie broken)', '## cargo build failed\n' + log[-4000:], no_input=True)
+            return None
+        ok, log = ctx.build_model()
+        if not ok:
+            ctx.violation('the Coq model / extraction no longer builds', '## build log\n' + log[-4000:], no_input=True)
+            return None
+        return os.path.join(bindir, 'seqrun')
+
+CHECKS['C17'] = VmemCheck('C17', lambda d: True,
+    'Theorems (Coq): the call sequence of vmem_helper::new regenerated from the source builds two views of one shared object at offset 0 that holds the supplied data (C17_source_closed, C17_mirror), '
+    'page rounding is the least multiple (C17_round), a contiguous window resolves to the ring slots (C17_slice), the release drops items once before unmapping both halves. '
+    'Tie: the whole sequential correspondence on a --features vmem build (1-3 pages, element sizes 4/8/16/24 bytes, histories positioned at the physical end: single mirrored slices, '
+    'initial contents, ledger, /proc/self/maps after release).')
